@@ -166,6 +166,20 @@ def _run(ctx):
                 if ev:
                     ctx.sample({"kind": "recorded failing decode (validated by TLC)", "event": ev})
     #    MD5 (every split of the message into one, two and three updates, byte-wise updates, random splits) and AES
+    #    every message length around the 64-byte block and the 56-byte padding boundary, deterministically
+    import random
+    rnd = random.Random(ctx.seed)
+    lens = [0, 1, 2, 54, 55, 56, 57, 62, 63, 64, 65, 66, 118, 119, 120, 121, 126, 127, 128, 129, 130, 183, 184, 185, 191, 192, 193]
+    md5_cases = []
+    for n in lens:
+        msg = [rnd.choice((0, 0x80, 0xff, rnd.randrange(256))) for _ in range(n)]
+        md5_cases.append({"e": "Md5", "msg": msg, "mode": "all3" if n <= 66 else "all2", "seed": ctx.seed})
+        if n > 66:
+            md5_cases.append({"e": "Md5", "msg": msg, "mode": "rand", "seed": ctx.seed + n})
+    sp = ctx.tmp("md5_lengths.jsonl")
+    write_script(sp, md5_cases)
+    tr = ctx.tmp("md5_lengths.ndjson")
+    run_and_validate(ctx, exe, ["script", sp, "@OUT", "exact"], tr, "MD5 at %d boundary lengths, all splits" % len(lens))
     tr = ctx.tmp("random_md5aes.ndjson")
     ok, lines = run_and_validate(ctx, exe, ["random", ctx.seed, 40 if quick else 400, "@OUT", "exact", "Md5,Aes"], tr, "MD5 splits and AES blocks")
     if ok:
